@@ -502,6 +502,7 @@ namespace c07
     void judge(const Op& op, const Result& r, const std::string& ctx)
     {
       const std::string sn = cname(s);
+      const std::string sv = std::string(SNAME[s]) + " precond=" + PNAME[p]; // variant + preconditioner class: keys of the truthfulness checks
       auto why = [&]{ char b[400]; snprintf(b, sizeof b, " -> status=%s iters=%u def_init=%.6g def_final=%.6g x=", stname(r.st), unsigned(r.iters), r.d0, r.d1);
         return where + " | " + ctx + opstr(op) + b + vstr(r.x); };
       const std::vector<LD>& b = rhs[op.rhs];
@@ -526,7 +527,7 @@ namespace c07
       chk(c, fabsl(LD(r.d0) - d0_true) <= 1e-12L * std::max(d0_true, nb) + 1e-300L, "solvers.def_initial-untrue " + sn, why);
       // the reported final defect is the true residual of the returned iterate
       if(xfinite && r.st != Status::aborted && !skip_active)
-        chk(c, std::isfinite(r.d1) && fabsl(LD(r.d1) - d_true) <= 1e-6L * d0_true + round, "solvers.def_final-untrue " + sn,
+        chk(c, std::isfinite(r.d1) && fabsl(LD(r.d1) - d_true) <= 1e-6L * d0_true + round, "solvers.def_final-untrue " + sv,
           [&]{ char q[80]; snprintf(q, sizeof q, " | true residual %.6Lg", d_true); return why() + q; });
       // iteration limits
       chk(c, r.iters <= itmax, "solvers.num_iter>max_iter " + sn, why);
@@ -539,7 +540,7 @@ namespace c07
         {
           if(!skip_active) chk(c, conv(r.d1, r.d0), "solvers.success-but-criterion-unmet(reported) " + sn, why);
           if(skip_active) { if(!xfinite) c.outcome("skip-active: success/max_iter with non-finite x (defect never computed)"); }
-          else chk(c, xfinite && d_true <= LD(lim.tol_rel) * d0_true * (1 + 1e-6L) + 1e-6L * LD(lim.tol_rel) * d0_true + round, "solvers.success-but-true-residual-large " + sn,
+          else chk(c, xfinite && d_true <= LD(lim.tol_rel) * d0_true * (1 + 1e-6L) + 1e-6L * LD(lim.tol_rel) * d0_true + round, "solvers.success-but-true-residual-large " + sv,
             [&]{ char q[120]; snprintf(q, sizeof q, " | true residual %.6Lg > tol_rel*d0 = %.6Lg", d_true, LD(lim.tol_rel) * d0_true); return why() + q; });
           if(!tr.half_step) chk(c, r.iters >= lim.min_iter, "solvers.success-before-min_iter " + sn, why);
         }
@@ -573,7 +574,7 @@ namespace c07
         for(int i = 0; i < n; ++i) { LD e = LD(r.x[i]) - xref[op.rhs][i]; ex += e * e; nr += xref[op.rhs][i] * xref[op.rhs][i]; }
         ex = sqrtl(ex); nr = sqrtl(nr);
         const bool reached = xfinite && ex <= 1e-6L * cond * std::max(nr, LD(1e-30L)) * std::max<LD>(1.0L, LD(lim.tol_rel) / 1e-8L);
-        if(r.st == Status::success) chk(c, reached, "solvers.success-but-far-from-reference " + sn, [&]{ char q[80]; snprintf(q, sizeof q, " | ||x-x_ref||=%.4Lg cond=%.3Lg", ex, cond); return why() + q; });
+        if(r.st == Status::success) chk(c, reached, "solvers.success-but-far-from-reference " + sv, [&]{ char q[80]; snprintf(q, sizeof q, " | ||x-x_ref||=%.4Lg cond=%.3Lg", ex, cond); return why() + q; });
         else if(tr.fragile) { if(reached) c.count("lucky_breakdowns_accepted"); else { if(std::getenv("C07_STRICT_FRAGILE")) chk(c, false, "debug.fragile " + sn, why); c.count("fragile_method_breakdown_without_convergence"); c.count(std::string("breakdown-not-converged:") + sn + ":" + stname(r.st)); c.outcome(std::string("breakdown-not-converged ") + sn); } }
         else if((tr.conv_scope == 1 || tr.gmres_like) && r.st == Status::max_iter && xfinite && d_true <= 1e-3L * d0_true) c.count("slow_stationary_method_hit_max_iter_with_1e-3_reduction");
         else chk(c, false, "solvers.no-convergence-in-scope " + sn, [&]{ char q[80]; snprintf(q, sizeof q, " | ||x-x_ref||=%.4Lg cond=%.3Lg", ex, cond); return why() + q; });
